@@ -615,7 +615,7 @@ class EnsureValidRuntimeType(Contract):
     """ensure_valid_runtime_type: a name is looked up in the schema; the result is returned only if it is an OBJECT type that the abstract type
     lists as possible; anything else is a located error"""
     key = O + 'abstract_coercer.py::ensure_valid_runtime_type'
-    property_ids = ('C01', 'C02')
+    property_ids = ('C01', 'C02', 'C03')
     params = ['runtime_type_or_name', 'execution_context', 'return_type', 'field_nodes', 'info', 'result']
 
     def args(self, en, names):
@@ -658,7 +658,7 @@ class AbstractCoercerBody(Contract):
     hooks run once on the value; the hooked value is completed as an object of that runtime type"""
     key = O + 'abstract_coercer.py::abstract_coercer'
     decorators = ['null_coercer_wrapper']
-    property_ids = ('C01', 'C13')
+    property_ids = ('C01', 'C13', 'C03')
     params = ['result', 'info', 'execution_context', 'field_nodes', 'path', 'abstract_type']
 
     def args(self, en, names):
